@@ -23,6 +23,8 @@ def run(ctx, rep):
     implicit.rule_bounded_repetition(ctx, rep, "C04-R11")
     textparse.rule_decimal_text_length_bounded(ctx, rep, "C04-R12")
     textparse.rule_raw_number_subscripts(ctx, rep, "C04-R13")
+    builtins.rule_live_container_iteration(ctx, rep, "C04-R14")
+    builtins.rule_sort_on_a_copy(ctx, rep, "C04-R15")
     rep.undecided += [
         "that reported line/column are the right numbers (value property)",
         "RecursionError beyond the documented parser nesting limit",
